@@ -345,7 +345,7 @@ func paramsToArgs(sig *types.Signature) []*internal.Elem {
 }
 
 func inferFunc(pkg *Package, fn *internal.Elem, sig *types.Signature, targs []types.Type, args []*Element, flags InstrFlags) ([]types.Type, types.Type, error) {
-	args, err := checkInferArgs(pkg, fn, sig, args, flags)
+	params, err := checkInferArgs(pkg, fn, sig, targs, args, flags)
 	if err != nil {
 		return nil, nil, err
 	}
@@ -355,13 +355,12 @@ func inferFunc(pkg *Package, fn *internal.Elem, sig *types.Signature, targs []ty
 	for i := 0; i < n; i++ {
 		tparams[i] = tp.At(i)
 	}
-	params := sig.Params()
 	// Handle implicit cast with single type param but multiple args:
 	// Keep only the first param/arg that depends on the type param and has a typed value.
 	if pkg.implicitCast != nil && len(tparams) == 1 && len(args) > 1 {
 		var index []int
-		for i := 0; i < sig.Params().Len(); i++ {
-			if typeparams.IsParameterized(tparams, sig.Params().At(i).Type()) && !isUntyped(pkg, args[i].Type) {
+		for i := 0; i < params.Len(); i++ {
+			if typeparams.IsParameterized(tparams, params.At(i).Type()) && !isUntyped(pkg, args[i].Type) {
 				index = append(index, i)
 			}
 		}
@@ -407,9 +406,27 @@ func inferFunc(pkg *Package, fn *internal.Elem, sig *types.Signature, targs []ty
 	return targs, typ, err
 }
 
-func checkInferArgs(pkg *Package, fn *internal.Elem, sig *types.Signature, args []*internal.Elem, flags InstrFlags) ([]*internal.Elem, error) {
+// inferableElsewhere reports whether type parameter t is given explicitly or occurs in one of the
+// remaining parameters (so that an argument can still determine it).
+func inferableElsewhere(t *types.TypeParam, targs []types.Type, vars []*types.Var) bool {
+	if i := t.Index(); i < len(targs) && targs[i] != nil {
+		return true
+	}
+	for _, v := range vars {
+		if typeparams.IsParameterized([]*types.TypeParam{t}, v.Type()) {
+			return true
+		}
+	}
+	return false
+}
+
+// checkInferArgs checks the number of arguments and returns the parameters the arguments are
+// matched against during inference: for a variadic function called without `...` the variadic
+// parameter stands for one parameter of its element type per variadic argument (as in go/types).
+func checkInferArgs(pkg *Package, fn *internal.Elem, sig *types.Signature, targs []types.Type, args []*internal.Elem, flags InstrFlags) (*types.Tuple, error) {
 	nargs := len(args)
-	nreq := sig.Params().Len()
+	params := sig.Params()
+	nreq := params.Len()
 	if sig.Variadic() {
 		if nargs < nreq-1 {
 			caller := exprString(fn.Val)
@@ -417,24 +434,21 @@ func checkInferArgs(pkg *Package, fn *internal.Elem, sig *types.Signature, args 
 				"not enough arguments in call to %s\n\thave (%v)\n\twant (%v)", caller, getTypes(args), getParamsTypes(sig.Params(), true))
 		}
 		if flags&InstrFlagEllipsis != 0 {
-			return args, nil
+			return params, nil
 		}
-		var typ types.Type
-		if nargs < nreq {
-			typ = sig.Params().At(nreq - 1).Type()
-			elem := typ.(*types.Slice).Elem()
-			if t, ok := elem.(*types.TypeParam); ok {
-				return nil, fmt.Errorf("cannot infer %v (%v)", elem, pkg.cb.fset.Position(t.Obj().Pos()))
-			}
-		} else {
-			typ = types.NewSlice(types.Default(args[nreq-1].Type))
-		}
-		res := make([]*internal.Elem, nreq)
+		last := params.At(nreq - 1)
+		elem := last.Type().(*types.Slice).Elem()
+		vars := make([]*types.Var, nargs)
 		for i := 0; i < nreq-1; i++ {
-			res[i] = args[i]
+			vars[i] = params.At(i)
 		}
-		res[nreq-1] = &internal.Elem{Type: typ}
-		return res, nil
+		if t, ok := elem.(*types.TypeParam); ok && nargs < nreq && !inferableElsewhere(t, targs, vars) {
+			return nil, fmt.Errorf("cannot infer %v (%v)", elem, pkg.cb.fset.Position(t.Obj().Pos()))
+		}
+		for i := nreq - 1; i < nargs; i++ {
+			vars[i] = types.NewParam(last.Pos(), last.Pkg(), last.Name(), elem)
+		}
+		return types.NewTuple(vars...), nil
 	} else if nreq != nargs {
 		fewOrMany := "not enough"
 		if nargs > nreq {
@@ -444,7 +458,7 @@ func checkInferArgs(pkg *Package, fn *internal.Elem, sig *types.Signature, args 
 		return nil, fmt.Errorf(
 			"%s arguments in call to %s\n\thave (%v)\n\twant (%v)", fewOrMany, caller, getTypes(args), getParamsTypes(sig.Params(), false))
 	}
-	return args, nil
+	return params, nil
 }
 
 // ----------------------------------------------------------------------------
